@@ -1648,6 +1648,7 @@ impl Vm {
         }
 
         let created_upvalue = Root::new(RefCell::new(ObjUpvalue::new(loc_addr as *mut _)));
+        created_upvalue.borrow_mut().owner = self.fiber.as_ref().map(|f| f.as_gc());
         if let Some(uv) = prev_upvalue {
             uv.borrow_mut().next = Some(created_upvalue.as_gc());
         } else {
